@@ -82,7 +82,20 @@ def gen_history(seed, case, nsteps, opts):
     shape0 = P.shape()
     steps = [{"edits": [], "cmd": ["build"], "kinds": ["initial"], "expect_ok": True, "meta": step_meta(P)}]
     bad_run = 0
-    for _ in range(nsteps - 1):
+    # every history contains one scripted "late dependency" scenario (4 steps) at a random position; the variant rotates with
+    # the case index so that every quick run sees all of them
+    late_at = rng.range(1, max(1, nsteps - 5)) if nsteps >= 6 and "lateref" not in avoid else -1
+    while len(steps) < nsteps:
+        if len(steps) == late_at:
+            ls = H.late_ref_steps(HistoryGen.LATE_REF_VARIANTS[case % len(HistoryGen.LATE_REF_VARIANTS)])
+            for st in ls:
+                st["meta"] = step_meta(P)
+            # meta of the break step must describe the project *at that step*; out_src only matters for output mismatches
+            steps.extend(ls)
+            bad_run = 0
+            late_at = -1
+            if ls:
+                continue
         if bad_run >= 3 and rng.chance(2, 3):
             st = H.repair_step(cmd=rng.pick([["build"], ["build"], ["check"]]))
         else:
@@ -90,6 +103,7 @@ def gen_history(seed, case, nsteps, opts):
         st["meta"] = step_meta(P)
         bad_run = 0 if st["expect_ok"] else bad_run + 1
         steps.append(st)
+    steps = steps[:max(nsteps, 1)] if late_at == -1 else steps
     return files0, steps, shape0, P.shape()
 
 
@@ -181,6 +195,7 @@ def execute(case_dir, files0, steps, template_home, sabotage=False, keep=False, 
 
     last_ok_files = None
     sabotaged = False
+    late_add_ok = False
     changed_at = {}
     check_steps = []
     for si, st in enumerate(steps):
@@ -194,10 +209,25 @@ def execute(case_dir, files0, steps, template_home, sabotage=False, keep=False, 
         argv = st["cmd"]
         sources = set(files)
         pre = twin.digest_outputs(inc, sources)
+        if sabotage == "stale_dependents" and st.get("tag") == "late_ref_break" and late_add_ok:
+            # harness-side emulation of "the dependents list of a restored file is not refreshed": empty A's cached list
+            mp = os.path.join(inc, ".build/cache/manifest.toml")
+            try:
+                txt = open(mp).read()
+                key = '[files."' + os.path.join(inc, st["late_ref_target"]) + '"]'
+                i = txt.find(key)
+                if i >= 0:
+                    j = txt.find("dependents = [", i)
+                    k = txt.find("]", j)
+                    txt = txt[:j] + "dependents = [" + txt[k:]
+                    open(mp, "w").write(txt)
+                    bump("sabotage_applied")
+            except OSError:
+                pass
         r_inc = twin.run_step(inc, home, argv, sources)
         twin.wipe_and_materialize(cln, files)
         r_cln = twin.run_step(cln, home, argv, sources)
-        if sabotage and not sabotaged and si >= 1 and r_inc.code == 0 and argv[0] in ("build", "test"):
+        if sabotage is True and not sabotaged and si >= 1 and r_inc.code == 0 and argv[0] in ("build", "test"):
             svs = sorted(k for k in r_inc.outputs if k.endswith(".sv") and k in r_cln.outputs)
             if svs:
                 r_inc.outputs[svs[0]] = r_inc.outputs[svs[0]] + b"// sabotage\n"
@@ -221,6 +251,21 @@ def execute(case_dir, files0, steps, template_home, sabotage=False, keep=False, 
             continue
         bump("steps_compared")
         bump(f"cmd_{cmd}")
+        tag = st.get("tag")
+        if tag == "late_ref_add":
+            late_add_ok = r_inc.code == 0 and r_cln.code == 0 and bool(r_inc.restored and r_inc.restored[0] > 0)
+            if late_add_ok:
+                bump("late_ref_added_while_target_restored")
+        elif tag == "late_ref_break":
+            if late_add_ok:
+                bump("late_ref_break_steps_compared")
+                variant = st["kinds"][0].split(":")[-1]
+                bump(f"late_ref_break_{variant}")
+                if r_cln.code not in (0, None):
+                    bump("late_ref_break_steps_where_clean_reports_the_error")
+                if r_inc.restored and r_inc.restored[0] > 0:
+                    bump("late_ref_break_steps_with_restore")
+            late_add_ok = False
         for k in st.get("kinds", []):
             bump(f"edit_{k}")
         bump("diag_records_compared", len(r_cln.diags))
@@ -341,12 +386,16 @@ def main():
     nsteps = args.budget("steps", 10, 30)
     jobs = int(args.extra.get("jobs", min(12, os.cpu_count() or 4)))
     opts = {"hand_edit": bool(int(args.extra.get("hand_edit", 0))), "rm_map": bool(int(args.extra.get("rm_map", 0))),
-            "sabotage": bool(int(args.extra.get("sabotage", 0))),
+            "sabotage": (args.extra.get("sabotage") if args.extra.get("sabotage") in ("stale_dependents",)
+                         else bool(int(args.extra.get("sabotage", 0)))),
             "avoid": tuple(x for x in args.extra.get("avoid", "").split(",") if x),
             "known": sorted(k.get("signature") for k in run.known if k.get("status") == "known")}
     if opts["avoid"]:
         run.note(f"generator steered away from: {opts['avoid']} (exploration aid; the default mix avoids nothing)")
-    if opts["sabotage"]:
+    if opts["sabotage"] == "stale_dependents":
+        run.note("SELF-TEST: --set sabotage=stale_dependents empties the cached dependents list of the late-referenced file before the "
+                 "break step (harness-side emulation of a manifest that is not refreshed for restored files); a violation is expected")
+    elif opts["sabotage"]:
         run.note("SELF-TEST: --set sabotage=1 corrupts one incremental-twin output before comparison; a violation is expected")
     work = [(args.seed, i, nsteps, scratch, template_home, opts) for i in range(ncases)]
     with multiprocessing.Pool(jobs) as pool:
@@ -379,7 +428,8 @@ def main():
     if scale:
         floors = [("steps_compared", 28 * scale), ("steps_with_restore", 14 * scale), ("fragments_restored", 40 * scale),
                   ("steps_both_ok", 10 * scale), ("output_files_compared", 70 * scale), ("diag_records_compared", 4 * scale),
-                  ("distinct_nontrivial", max(3, 2 * scale))]
+                  ("distinct_nontrivial", max(3, 2 * scale)), ("late_ref_break_steps_compared", 3 * scale),
+                  ("late_ref_break_steps_where_clean_reports_the_error", 3 * scale), ("late_ref_break_steps_with_restore", 2 * scale)]
     else:
         floors = [("steps_compared", 1)]
     run.finish(floors)
